@@ -406,9 +406,14 @@ def run(ctx):
             nraise += len(re.findall(r"machine->running\s*=\s*VM_EXCEPTION", txt))
         except OSError:
             pass
+    # an assignment is accounted for as a site of its own or as the body of a raise helper (a function that stores its
+    # parameter into machine->exception: its CALLS are the sites, x["via"] names the helper)
+    helper_lines = set(faultsites.helper_assignments(common.REPO))
+    located = {(x["file"], x["line"]) for x in sites if not x.get("via")} | helper_lines
     ctx.obligation("fault-site translator accounts for every `machine->running = VM_EXCEPTION` of back/vmexec.c, libvm.c, vmffi.c",
-                   len({(x["file"], x["line"]) for x in sites}) == nraise,
-                   {"assignments_in_source": nraise, "sites_located": len({(x["file"], x["line"]) for x in sites})})
+                   len(located) == nraise,
+                   {"assignments_in_source": nraise, "sites_located": len(located), "inside_raise_helpers": sorted(helper_lines),
+                    "sites_that_call_a_raise_helper": len([x for x in sites if x.get("via")])})
     for x in sites:
         if not x["exceptions"] and x["func"] not in faultsites.PRESERVING:
             src_lines = open(os.path.join(common.REPO, "back", x["file"]), errors="replace").read().split("\n")
